@@ -2,7 +2,7 @@
 """Entry point of the emboss deterministic-simulation checks.
 
   bin/check.py <C01|C03|C04|C06|C16|C17|C18|C20> [--tier quick|thorough] [--replay FILE]
-  bin/check.py selftest-determinism | validate-evidence
+  bin/check.py selftest-determinism | selftest-sensitivity | validate-evidence
 
 Exit status: 0 = property held on everything explored (possibly with
 KNOWN-FINDING lines); 1 = at least one confirmed VIOLATION; 2 = harness problem.
@@ -48,6 +48,9 @@ def main(argv):
     if args.what == "selftest-determinism":
         from simlib import selftest
         return selftest.determinism(args)
+    if args.what == "selftest-sensitivity":
+        from simlib import selftest
+        return selftest.sensitivity(args)
     if args.what == "validate-evidence":
         from simlib import selftest
         return selftest.validate_evidence(args)
